@@ -312,6 +312,29 @@ func init() {
 				if deadlineThenSlow && k == 1 {
 					callCtx = ctx // no deadline at all
 				}
+				if c.flags == 0 && c.params != "" && !deadlineThenSlow && g.Chance(1, 3) {
+					// (only with parameters: Call hands Send a pointer to its parameters argument, so a nil argument goes
+					// out as "parameters":null instead of being omitted — a different, equally well-formed wire form)
+					// the convenience wrapper Connection.Call, with and without a place for the reply: an error reply
+					// must come back as that error either way
+					var out json.RawMessage
+					var err error
+					nilOut := g.Bool()
+					if nilOut {
+						err = conn.Call(callCtx, c.method, params, nil)
+					} else {
+						err = conn.Call(callCtx, c.method, params, &out)
+					}
+					o.sendOK = true
+					r := classifyRecv(0, err, out)
+					if nilOut && r.kind == "reply" {
+						r.kind = "reply-nilout"
+					}
+					o.res = append(o.res, r)
+					cancelCall()
+					obs = append(obs, o)
+					continue
+				}
 				receive, err := conn.Send(callCtx, c.method, params, c.flags)
 				o.sendOK = err == nil
 				if err == nil && !oneway {
